@@ -209,3 +209,95 @@ def eval_value(e: ast.AST, env: Dict[str, Any]) -> Any:
                         'ord': ord, 'chr': chr}[fn.id](*args)
         raise CannotEvaluate('call %s' % ast.unparse(fn))
     raise CannotEvaluate(type(e).__name__)
+
+
+def eval_iter(e: ast.AST, env: Dict[str, Any], limit: int = 4096):
+    """Folding of a closed *sequence* term (the iterable a loop was found to run over) at constants: ``range``, displays,
+    ``zip``, ``enumerate``, ``itertools.chain / repeat / islice / count``, ``iter``, ``list`` / ``tuple`` and generator
+    expressions / list comprehensions over these, with scalar parts folded by eval_value.  Returns a Python iterator that
+    yields at most ``limit`` items (an endless ``count()`` / ``repeat()`` is cut there); raises CannotEvaluate on anything
+    else.  Like eval_value this folds a term the analysis extracted; it does not run code of the package."""
+    import itertools as _it
+
+    def go(x, env):
+        if isinstance(x, ast.Name) and x.id in env and isinstance(env[x.id], (list, tuple)):
+            return iter(env[x.id])
+        if isinstance(x, (ast.Tuple, ast.List)):
+            if any(isinstance(y, ast.Starred) for y in x.elts):
+                raise CannotEvaluate('starred display')
+            return iter([eval_value(y, env) for y in x.elts])
+        if isinstance(x, (ast.GeneratorExp, ast.ListComp)):
+            def gen(gens, env_):
+                if not gens:
+                    v = x.elt
+                    yield eval_value(v, env_) if not isinstance(v, ast.Tuple) else tuple(eval_value(y, env_) for y in v.elts)
+                    return
+                g = gens[0]
+                if g.is_async:
+                    raise CannotEvaluate('async comprehension')
+                for item in go(g.iter, env_):
+                    env2 = dict(env_)
+                    bind(g.target, item, env2)
+                    if all(eval_value(c, env2) for c in g.ifs):
+                        for out in gen(gens[1:], env2):
+                            yield out
+            return gen(list(x.generators), env)
+        if isinstance(x, ast.Call) and not any(isinstance(a, ast.Starred) for a in x.args):
+            name = ast.unparse(x.func)
+            short = name.split('.')[-1]
+            kw = {k.arg: k.value for k in x.keywords}
+            if name in ('range', 'xrange', 'six.moves.range') and not kw and 1 <= len(x.args) <= 3:
+                vals = [eval_value(a, env) for a in x.args]
+                if not all(type(v) is int for v in vals) or (len(vals) == 3 and vals[2] == 0):
+                    raise CannotEvaluate('range arguments')
+                return iter(range(*vals))
+            if name in ('zip', 'six.moves.zip', 'itertools.izip', 'izip') and not kw and x.args:
+                return zip(*[go(a, env) for a in x.args])
+            if name == 'enumerate' and 1 <= len(x.args) <= 2 and set(kw) <= {'start'}:
+                st = eval_value(x.args[1] if len(x.args) == 2 else kw.get('start', ast.Constant(value=0)), env)
+                if type(st) is not int:
+                    raise CannotEvaluate('enumerate start')
+                return enumerate(go(x.args[0], env), st)
+            if short == 'chain' and name in ('chain', 'itertools.chain') and not kw:
+                return _it.chain(*[go(a, env) for a in x.args])
+            if short == 'repeat' and name in ('repeat', 'itertools.repeat') and 1 <= len(x.args) <= 2 and set(kw) <= {'times'}:
+                v = eval_value(x.args[0], env)
+                t = x.args[1] if len(x.args) == 2 else kw.get('times')
+                if t is None:
+                    return _it.repeat(v)
+                n = eval_value(t, env)
+                if type(n) is not int:
+                    raise CannotEvaluate('repeat count')
+                return _it.repeat(v, max(n, 0))
+            if short == 'count' and name in ('count', 'itertools.count') and len(x.args) <= 2 and not kw:
+                vals = [eval_value(a, env) for a in x.args]
+                if not all(type(v) is int for v in vals):
+                    raise CannotEvaluate('count arguments')
+                return _it.count(*vals)
+            if short == 'islice' and name in ('islice', 'itertools.islice') and 2 <= len(x.args) <= 4 and not kw:
+                vals = [eval_value(a, env) for a in x.args[1:]]
+                if not all(v is None or (type(v) is int and v >= 0) for v in vals):
+                    raise CannotEvaluate('islice arguments')
+                return _it.islice(go(x.args[0], env), *vals)
+            if name in ('iter', 'list', 'tuple', 'reversed') and len(x.args) == 1 and not kw:
+                if name == 'reversed':
+                    return iter(list(go(x.args[0], env))[::-1][:limit])
+                return go(x.args[0], env)
+        v = eval_value(x, env)
+        if isinstance(v, (list, tuple, bytes, str)):
+            return iter(v)
+        raise CannotEvaluate('not a sequence term: %s' % ast.unparse(x)[:60])
+
+    def bind(target, item, env2):
+        if isinstance(target, ast.Name):
+            env2[target.id] = item
+        elif isinstance(target, (ast.Tuple, ast.List)) and not any(isinstance(y, ast.Starred) for y in target.elts):
+            item = tuple(item)
+            if len(item) != len(target.elts):
+                raise CannotEvaluate('unpacking')
+            for t_, i_ in zip(target.elts, item):
+                bind(t_, i_, env2)
+        else:
+            raise CannotEvaluate('loop target')
+    import itertools
+    return itertools.islice(go(e, env), limit)
